@@ -13,6 +13,16 @@ from ..ref import refsubst
 
 ID = "C04"
 LEVEL = "exploration"
+TECHNIQUE = ("runtime monitoring: reference substitution scanner vs "
+             "substitute()/isname() on bounded-exhaustive strings under "
+             "every defined/undefined assignment in both namespaces, plus "
+             "random Unicode strings")
+LEVEL_TEXT = ("Every string of the bounded alphabet space is executed "
+              "through the real function under every assignment of its "
+              "names (mapping and environment, separately and crossed) and "
+              "compared with an independent scanner: result text, error "
+              "class, the name and source carried by the error.  Exhaustive "
+              "within the bound, a sample beyond.")
 RULE = ("exhaustive strings over {$ { } ( ) a B _ 1 -} up to the tier's "
         "length bound (quick 5, thorough 7), each under every "
         "defined/undefined assignment (<=8) of the names it references with "
